@@ -12,3 +12,9 @@ Definition wrap_u8 := wrap_u 8.    Definition wrap_u16 := wrap_u 16.   Definitio
 Definition wrap_usize := wrap_u 64.
 Definition wrap_i8 := wrap_s 8.    Definition wrap_i16 := wrap_s 16.   Definition wrap_i32 := wrap_s 32.   Definition wrap_i64 := wrap_s 64.
 Definition wrap_isize := wrap_s 64.
+
+(* the outcome of a translated `for` loop whose body may `return`: the function returned r / the range is exhausted with state s / out of fuel *)
+Inductive loop_res (R S : Type) : Type := LReturn (r : R) | LDone (s : S) | LFuel.
+Arguments LReturn {R S} r.
+Arguments LDone {R S} s.
+Arguments LFuel {R S}.
